@@ -196,6 +196,16 @@ func (b *Balloon) RefreshVersion() error {
 	return nil
 }
 
+// RebuildCache recomputes the in-memory hyper cache from the store. It must be
+// called whenever the store has been modified behind the balloon's back (e.g.
+// after loading a state transfer), otherwise later insertions and proofs are
+// computed from stale cached batches.
+func (b *Balloon) RebuildCache() {
+	b.Lock()
+	defer b.Unlock()
+	b.hyperTree.RebuildCache()
+}
+
 // Add funcion inserts an event hash into the history and hyper trees, creates a snapshot
 // with these insertions results, and returns the snapshot along with certain mutations to
 // do to the persistent storage.
